@@ -89,6 +89,35 @@ def check_build_manifest(db, chk):
                "prune is applied to the operation's updated_fragments and fields_modified", f.loc(pt["ln"]))
         o0 = c.op_origins(pt["args"][0], transparent=lambda t: True)
         chk.ob(R, "update:prune-on-final-indices", ("arg", 3) in o0, "prune operates on the index list that is returned (current_indices)", f.loc(pt["ln"]))
+    # ---- DataReplacement arm: the sibling of an in-place Update (column values of existing fragments change under the same
+    # fragment ids), so the same pruning is required: an index on a replaced field must stop claiming the replaced fragments
+    sws, ef = arm_region(c, "DataReplacement")
+    reach = c.reachable_from([0], include_start=True, edge_filter=ef)
+    prune = [(b, t) for b, t in calls(f, "Transaction::prune_updated_fields_from_indices") if b in reach]
+    oks = ok_returns(c, reach)
+    if not prune:
+        chk.ob(R, "datareplacement:prune-on-every-ok-path", False,
+               "the DataReplacement arm never calls prune_updated_fields_from_indices: an index on a replaced field keeps the replaced "
+               "fragments in its bitmap and answers with the old values", f.loc())
+    else:
+        r_wo = c.reachable_from([0], include_start=True, edge_filter=ef, avoid=[b for b, _ in prune])
+        esc = [o for o in oks if o in r_wo]
+        chk.ob(R, "datareplacement:prune-on-every-ok-path", bool(oks) and not esc,
+               "every successful path of the DataReplacement arm passes prune_updated_fields_from_indices (escaping Ok blocks: %s)" % esc,
+               f.loc(prune[0][1]["ln"]))
+        pt = prune[0][1]
+        T = lambda t: True
+        o1 = c.op_origins(pt["args"][1], transparent=T)
+        o2 = c.op_origins(pt["args"][2], transparent=T)
+        o0 = c.op_origins(pt["args"][0], transparent=T)
+        f1 = {x[1] for x in o1 if x[0] == "field"}
+        f2 = {x[1] for x in o2 if x[0] == "field"}
+        clos2 = [db.fns[x[1]] for x in o2 if x[0] == "closure" and x[1] in db.fns]
+        reads_fields = "fields" in f2 or any(isinstance(e, dict) and e.get("f") == "fields" for k in clos2 for _, _, s in k.cfg.stmts()
+                                             for p in matrix.places_in_stmt(s) for e in p)
+        chk.ob(R, "datareplacement:prune-args", "replacements" in f1 and "replacements" in f2 and reads_fields,
+               "prune is applied to the fragments named by the replacements and to the replaced data files' fields", f.loc(pt["ln"]))
+        chk.ob(R, "datareplacement:prune-on-final-indices", ("arg", 3) in o0, "prune operates on the index list that is returned (current_indices)", f.loc(pt["ln"]))
     # ---- Rewrite arm
     sws, ef = arm_region(c, "Rewrite")
     reach = c.reachable_from([0], include_start=True, edge_filter=ef)
